@@ -18,7 +18,7 @@ import (
 
 // In-package accessors for the C07 harness (added through the build overlay only).
 
-func C07PeerMgr(a *Agent) *peer.Manager     { return a.peerMgr }
+func C07PeerMgr(a *Agent) *peer.Manager       { return a.peerMgr }
 func C07ShellHandler(a *Agent) *shell.Handler { return a.shellHandler }
 
 // C07MeshConn builds the real meshConn (the net.Conn the SOCKS5 server / forward listener
@@ -51,4 +51,25 @@ func C07SendFileDownload(a *Agent, peerID identity.AgentID, streamID, requestID 
 // C07ForwardShellClientData runs the real client-side shell sender loop until the adapter closes.
 func C07ForwardShellClientData(a *Agent, streamID uint64, nextHop identity.AgentID, adapter *health.ShellStreamAdapter) {
 	a.forwardShellClientData(streamID, nextHop, adapter)
+}
+
+// C07RegisterShellClient registers a client-side shell adapter as OpenShellStream does.
+func C07RegisterShellClient(a *Agent, streamID uint64, adapter *health.ShellStreamAdapter) {
+	a.shellClientMu.Lock()
+	a.shellClientStreams[streamID] = adapter
+	a.shellClientMu.Unlock()
+}
+
+// C07HandleShellClientData is the real far end of the shell output paths.
+func C07HandleShellClientData(a *Agent, streamID uint64, data []byte, flags uint8) bool {
+	return a.handleShellClientData(streamID, data, flags)
+}
+
+// C07ReceiveEncrypted is the real far end of the file paths (DownloadFile / receiveAndWriteFile).
+func C07ReceiveEncrypted(a *Agent, s *stream.Stream, key *crypto.SessionKey, total int64) ([]byte, error) {
+	buf, _, err := a.receiveEncryptedStreamData(context.Background(), s, key, total, nil)
+	if buf == nil {
+		return nil, err
+	}
+	return buf.Bytes(), err
 }
